@@ -145,7 +145,8 @@ ObsStep ==
      /\ lastAct' = Label(r)
      /\ LET noop == IF C05_RejectedIsNoopStep THEN {}
                     ELSE { V("C05_RejectedIsNoop", r.pid, KeyOrNo(r), {}) }
-            new == (AllV' \cup noop) \ seen
+            \* a re-executed prefix (explore) was judged when it was first recorded
+            new == IF r.pre THEN {} ELSE (AllV' \cup noop) \ seen
         IN /\ Report(new, r)
            /\ seen' = seen \cup new
 
